@@ -2,6 +2,31 @@
 """Regenerates MANIFEST.json from the table below (run after adding a property)."""
 import json, subprocess
 CLAIMED = {
+ "C04": dict(
+   text="Differential testing of generated declaration + store/read/by-reference-store sequences over arrays (1-3 dimensions, negative lower bounds), records, nested records and fixed-length strings against a map model; every element and field is printed after the sequence, and an access outside a chosen face of the index box must raise Subscript out of range and nothing else.",
+   note="Trusted: the map model in the reference semantics, the IR printer. Ties in fractional subscripts are never generated.",
+   technique="proptest tape-decoded op-sequence generation + model-based differential oracle with full state dump",
+   design="6/C04"),
+ "C05": dict(
+   text="Differential testing of trace programs (each statement prints a token, so stdout is the executed path) against a reference control machine: GOTO/GOSUB/RETURN layouts incl. jumps out of nested loops, handler enabling/disabling orders, five failing-statement kinds at every block position, RESUME / RESUME NEXT / RESUME label, stray RETURN/RESUME.",
+   note="Trusted: reference control machine (tree-walking with labels per block, GOSUB as activation, handler dispatch). Failing statements under a handler are simple module-level statements only.",
+   technique="proptest tape-decoded trace-program generation + differential oracle (reference control machine)",
+   design="6/C05"),
+ "C16": dict(
+   text="Model-based testing of PRINT/LPRINT/PRINT # histories over four devices against a per-device column model written from the statement (zones of 14, carried column after a trailing separator, restart after embedded CR/LF) and of PRINT USING against a field model; all two-statement histories over a 6-item alphabet are enumerated, longer ones drawn at random.",
+   note="Trusted: the column/field model; the bytes an embedded CR/LF writes are not pinned by the statement and are matched loosely.",
+   technique="bounded-exhaustive + proptest history generation against a reference layout model",
+   design="6/C16"),
+ "C17": dict(
+   text="Bounded-exhaustive testing (all 364 strings over {a,B,blank} of length <= 5 x all counts/starts in -1..7, all 65536 INTEGER k for VAL(STR$(k))) plus random longer strings of every string function against native reference implementations of the defining equations and against the laws evaluated inside BASIC; arguments as literals, variables and nested calls; error-raising calls observed both as last statement and under a handler.",
+   note="Trusted: native reference functions written from the statement; where the statement is silent (empty INSTR needle, STRING$(n,\"\")) cases are discarded.",
+   technique="bounded-exhaustive enumeration + proptest random search against reference implementations and algebraic laws",
+   design="6/C17"),
+ "C20": dict(
+   text="Bounded-exhaustive differential testing of the parser-combinator library: every well-scoped parser expression up to 4-5 nodes over 9 primitives and 39 combinator forms x every input word up to length 6 over {a,b,c}, plus random deeper expressions, built into real rusty_pc parsers and compared node by node (outcome, output, error, position) with a denotational model of the documented contract; the statement's invariants are asserted on the real call tree as well.",
+   note="Trusted: the denotational model (DESIGN.md Appendix C) and the probe wrapper; documented preconditions are decided in the model and such cases discarded.",
+   technique="bounded-exhaustive enumeration of parser expressions x inputs against a denotational model + proptest for deeper expressions",
+   design="6/C20"),
  "C02": dict(
    text="Metamorphic testing, implementation against itself: 16 rewrite rules (the seven spellings named in the statement plus once-executing context wrappers with every STEP form) applied on the IR of generated programs at one / some / all sites, plus an enumerated family of all 14x14 construct nestings around 12 statement groups compared with a flat FOR spelling. Printed output and error code must be identical.",
    note="Trusted: the rewrite rules preserve meaning by the statement itself (they are the equivalences it lists) and the IR printer. No reference semantics involved.",
